@@ -816,7 +816,16 @@ def immut_class(repo: Repo, fi: FuncInfo, val: ast.AST) -> str:
 # ------------------------------------------------------------------ thorough tier
 
 
+GENERIC_FILES = ['permuta/patterns/perm.py', 'permuta/patterns/meshpatt.py', 'permuta/patterns/bivincularpatt.py', 'permuta/perm_sets/basis.py']
+
+
 def variants():
+    from ..selftest import generic_silent
+
+    return _variants() + generic_silent(GENERIC_FILES)
+
+
+def _variants():
     from ..selftest import V, insert_stmt, reformat_only, remove_def, rename_local, replace_expr, replace_stmt
 
     MP, BV, BA, PE = "permuta/patterns/meshpatt.py", "permuta/patterns/bivincularpatt.py", "permuta/perm_sets/basis.py", "permuta/patterns/perm.py"
